@@ -78,6 +78,11 @@ fn parse_type(t: &str) -> Option<(bool, bool, String)> {
 /// Parse rendered source (quick-xml preset: attributes are bound to `@name`, text to `$text`).
 /// The grammar is exactly what the renderer is documented to emit; anything else is an error.
 pub fn parse_blocks(src: &str) -> Result<Vec<Block>, String> {
+    parse_blocks_with(src, "$text")
+}
+
+/// the same for a rendering whose caller set `Options::text_identifier` itself
+pub fn parse_blocks_with(src: &str, text_id: &str) -> Result<Vec<Block>, String> {
     let mut blocks = Vec::new();
     let mut lines = src.split('\n').peekable();
     loop {
@@ -132,7 +137,7 @@ pub fn parse_blocks(src: &str) -> Result<Vec<Block>, String> {
             let (opt, vec, inner) = parse_type(ty).ok_or_else(|| format!("bad type {ty:?}"))?;
             let renamed = rename.is_some();
             let serde = rename.take().unwrap_or_else(|| ident.to_string());
-            let kind = if renamed && serde == "$text" {
+            let kind = if renamed && serde == text_id {
                 Kind::Text
             } else if renamed && serde.starts_with('@') {
                 Kind::Attr
